@@ -8,9 +8,16 @@
    [p_src pairs n i] / [p_tgt pairs n i] = coordinate i of the n-th source / target, [Sc ps pairs] / [Tc ps pairs] = the same
    minus the model's means, [fcost d pairs R t] = sum_n sum_{i<d} (sum_j R i j s_n j + t i - t_n i)^2 (cost of the rigid
    motion (R, t) on the listed pairs themselves), [scale_pairs c pairs] = every coordinate of every point times c
-   (PreconditionedPointSet(points, c) on both sets), [rank_ge_dm1 d N S] = some S_n <> 0 (d = 2) / some S_n x S_m <> 0 (d = 3). *)
+   (PreconditionedPointSet(points, c) on both sets), [rank_ge_dm1 d N S] = some S_n <> 0 (d = 2) / some S_n x S_m <> 0 (d = 3).
+   SOURCE TIE (end of the file): [src_estimate_corr_<p>], [src_estimate_aligned_<p>], [src_find_*_<p>] (gen/SrcKabsch.v) are
+   the terms regenerated on every run by translate/tr_C04_kabsch.py from the clang AST of the instantiated members of
+   FindRigidTransformationBySVD<P> for P = Vector2d (v2), Vector3d (v3), HomogeneousCoordinates2d (h2),
+   HomogeneousCoordinates3d (h3); their first argument is the SVD oracle (Eigen::JacobiSVD).  [KabschLits N] (SrcMat.v): the
+   dictionary N reads the source's literal `0` as nzero and `x * (-1)` as -x.  [mcomp N M i j] = entry (i,j) of the rows M. *)
 From Coq Require Import Reals List Arith Lia Lra Bool Permutation.
 From Romea Require Import Num NumR LinAlgBModel LinAlgBProofs LsProofs KabschModel KabschProofs KabschProper KabschLists KabschPrecond KabschExamples.
+From Romea Require Import SrcMat SrcTieC04 SrcTieC04R.
+From Romea.gen Require Import SrcKabsch.
 Import ListNotations.
 Local Open Scope R_scope.
 
@@ -365,3 +372,163 @@ Example C04_preconditioned_satisfiable :
   svd_contract 3 sq2_cov (sq2_svd 3 sq2_cov) /\ 2 <> 0 /\
   (length (map fst sq_pairs) = length (map snd sq_pairs) /\ combine (map fst sq_pairs) (map snd sq_pairs) = sq_pairs).
 Proof. exact (conj sq2_contract (conj (not_eq_sym (Rlt_not_eq 0 2 Rlt_0_2)) sq_is_aligned)). Qed.
+
+(* ================================================================================================================
+   SYNTACTIC SOURCE TIE.  The generated terms equal the model functions the theorems above are about, for EVERY numeric
+   dictionary with the two literal laws (the reals satisfy them: next theorem) and every SVD oracle.
+   Point types: v2 = (d, ps) = (2, 2), v3 = (3, 3), h2 = (2, 3), h3 = (3, 4). *)
+Theorem C04_source_tie_literal_laws_hold_over_the_reals : KabschLits ROps.
+Proof. exact KabschLits_R. Qed.
+
+(* both private estimate_ overloads: whenever the model is defined (indices in range / sets of equal size) the source's
+   term returns the model's matrix *)
+Theorem C04_source_tie_estimate :
+  forall (T : Type) (N : NumOps T), KabschLits N -> forall svd_of,
+  (forall src tgt corr H, estimate_corr N svd_of true 2 2 src tgt corr = Some H -> src_estimate_corr_v2 N (svd_of 2%nat) src tgt corr = H) /\
+  (forall src tgt corr H, estimate_corr N svd_of true 3 3 src tgt corr = Some H -> src_estimate_corr_v3 N (svd_of 3%nat) src tgt corr = H) /\
+  (forall src tgt corr H, estimate_corr N svd_of true 2 3 src tgt corr = Some H -> src_estimate_corr_h2 N (svd_of 2%nat) src tgt corr = H) /\
+  (forall src tgt corr H, estimate_corr N svd_of true 3 4 src tgt corr = Some H -> src_estimate_corr_h3 N (svd_of 3%nat) src tgt corr = H) /\
+  (forall src tgt H, estimate_aligned N svd_of true 2 2 src tgt = Some H -> src_estimate_aligned_v2 N (svd_of 2%nat) src tgt = H) /\
+  (forall src tgt H, estimate_aligned N svd_of true 3 3 src tgt = Some H -> src_estimate_aligned_v3 N (svd_of 3%nat) src tgt = H) /\
+  (forall src tgt H, estimate_aligned N svd_of true 2 3 src tgt = Some H -> src_estimate_aligned_h2 N (svd_of 2%nat) src tgt = H) /\
+  (forall src tgt H, estimate_aligned N svd_of true 3 4 src tgt = Some H -> src_estimate_aligned_h3 N (svd_of 3%nat) src tgt = H).
+Proof. exact (fun T N L svd => source_tie_estimate_all N L svd). Qed.
+
+(* find(PointSet, PointSet, correspondences) and find(PointSet, PointSet) *)
+Theorem C04_source_tie_find_plain :
+  forall (T : Type) (N : NumOps T), KabschLits N -> forall svd_of,
+  (forall src tgt corr H, find_corr N svd_of true 2 2 src tgt corr = Some H -> src_find_corr_v2 N (svd_of 2%nat) src tgt corr = H) /\
+  (forall src tgt corr H, find_corr N svd_of true 3 3 src tgt corr = Some H -> src_find_corr_v3 N (svd_of 3%nat) src tgt corr = H) /\
+  (forall src tgt corr H, find_corr N svd_of true 2 3 src tgt corr = Some H -> src_find_corr_h2 N (svd_of 2%nat) src tgt corr = H) /\
+  (forall src tgt corr H, find_corr N svd_of true 3 4 src tgt corr = Some H -> src_find_corr_h3 N (svd_of 3%nat) src tgt corr = H) /\
+  (forall src tgt H, find_aligned N svd_of true 2 2 src tgt = Some H -> src_find_aligned_v2 N (svd_of 2%nat) src tgt = H) /\
+  (forall src tgt H, find_aligned N svd_of true 3 3 src tgt = Some H -> src_find_aligned_v3 N (svd_of 3%nat) src tgt = H) /\
+  (forall src tgt H, find_aligned N svd_of true 2 3 src tgt = Some H -> src_find_aligned_h2 N (svd_of 2%nat) src tgt = H) /\
+  (forall src tgt H, find_aligned N svd_of true 3 4 src tgt = Some H -> src_find_aligned_h3 N (svd_of 3%nat) src tgt = H).
+Proof. exact (fun T N L svd => source_tie_find_plain_all N L svd). Qed.
+
+(* find(PreconditionedPointSet, PreconditionedPointSet[, correspondences]).  The generated functions take the data members of
+   the two sets (get() and getPreconditioningMatrix() are translated from their bodies): the stored points — the model's
+   [precondition s pts] — and the preconditioning matrices Ms, Mt, of which the source reads entry (0,0) of the TARGET's
+   (the model's [precond_matrix00 stgt]) to un-scale the first d entries of the translation column *)
+Theorem C04_source_tie_find_preconditioned :
+  forall (T : Type) (N : NumOps T), KabschLits N -> forall svd_of,
+  (forall ssrc stgt src tgt corr H Ms Mt, find_corr_pre N svd_of true 2 2 ssrc stgt src tgt corr = Some H -> mcomp N Mt 0 0 = precond_matrix00 N stgt ->
+     src_find_pre_corr_v2 N (svd_of 2%nat) (precondition N ssrc src) Ms (precondition N stgt tgt) Mt corr = H) /\
+  (forall ssrc stgt src tgt corr H Ms Mt, find_corr_pre N svd_of true 3 3 ssrc stgt src tgt corr = Some H -> mcomp N Mt 0 0 = precond_matrix00 N stgt ->
+     src_find_pre_corr_v3 N (svd_of 3%nat) (precondition N ssrc src) Ms (precondition N stgt tgt) Mt corr = H) /\
+  (forall ssrc stgt src tgt corr H Ms Mt, find_corr_pre N svd_of true 2 3 ssrc stgt src tgt corr = Some H -> mcomp N Mt 0 0 = precond_matrix00 N stgt ->
+     src_find_pre_corr_h2 N (svd_of 2%nat) (precondition N ssrc src) Ms (precondition N stgt tgt) Mt corr = H) /\
+  (forall ssrc stgt src tgt corr H Ms Mt, find_corr_pre N svd_of true 3 4 ssrc stgt src tgt corr = Some H -> mcomp N Mt 0 0 = precond_matrix00 N stgt ->
+     src_find_pre_corr_h3 N (svd_of 3%nat) (precondition N ssrc src) Ms (precondition N stgt tgt) Mt corr = H) /\
+  (forall ssrc stgt src tgt H Ms Mt, find_aligned_pre N svd_of true 2 2 ssrc stgt src tgt = Some H -> mcomp N Mt 0 0 = precond_matrix00 N stgt ->
+     src_find_pre_aligned_v2 N (svd_of 2%nat) (precondition N ssrc src) Ms (precondition N stgt tgt) Mt = H) /\
+  (forall ssrc stgt src tgt H Ms Mt, find_aligned_pre N svd_of true 3 3 ssrc stgt src tgt = Some H -> mcomp N Mt 0 0 = precond_matrix00 N stgt ->
+     src_find_pre_aligned_v3 N (svd_of 3%nat) (precondition N ssrc src) Ms (precondition N stgt tgt) Mt = H) /\
+  (forall ssrc stgt src tgt H Ms Mt, find_aligned_pre N svd_of true 2 3 ssrc stgt src tgt = Some H -> mcomp N Mt 0 0 = precond_matrix00 N stgt ->
+     src_find_pre_aligned_h2 N (svd_of 2%nat) (precondition N ssrc src) Ms (precondition N stgt tgt) Mt = H) /\
+  (forall ssrc stgt src tgt H Ms Mt, find_aligned_pre N svd_of true 3 4 ssrc stgt src tgt = Some H -> mcomp N Mt 0 0 = precond_matrix00 N stgt ->
+     src_find_pre_aligned_h3 N (svd_of 3%nat) (precondition N ssrc src) Ms (precondition N stgt tgt) Mt = H).
+Proof. exact (fun T N L svd => source_tie_find_preconditioned_all N L svd). Qed.
+
+(* END TO END, over the reals.  [optimal_proper_motion d pairs H] is the conclusion of
+   C04_kabsch_estimate_is_optimal_proper_rotation about the matrix H: *)
+Theorem C04_optimal_proper_motion_means :
+  forall d pairs H, optimal_proper_motion d pairs H <->
+  ((is_orth d (mget ROps H) /\ fdet ROps d (mget ROps H) = 1) /\
+   forall Q tau, is_orth d Q -> fdet ROps d Q = 1 ->
+     fcost d pairs (mget ROps H) (fun i => mget ROps H i d) <= fcost d pairs Q tau).
+Proof. exact (fun d pairs H => iff_refl _). Qed.
+
+(* the optimality theorem stated directly about the term generated from estimate_(sourcePoints, targetPoints,
+   correspondences): for correspondences with indices in range (prs = the listed pairs, not empty) and any SVD within its
+   contract for the cross covariance of prs, the matrix the SOURCE's term returns is a proper rigid motion and least-squares
+   optimal on prs among all proper rigid motions — all four point types *)
+Theorem C04_source_estimate_corr_is_optimal_proper_rotation :
+  forall svd_of (src tgt : list (list R)) corr prs, pairs_of_corr src tgt corr = Some prs -> prs <> [] ->
+  ((let cov := cross_cov ROps 2 prs (mean_of ROps 2 (map fst prs)) (mean_of ROps 2 (map snd prs)) in svd_contract 2 cov (svd_of 2%nat cov)) ->
+     optimal_proper_motion 2 prs (src_estimate_corr_v2 ROps (svd_of 2%nat) src tgt corr)) /\
+  ((let cov := cross_cov ROps 3 prs (mean_of ROps 3 (map fst prs)) (mean_of ROps 3 (map snd prs)) in svd_contract 3 cov (svd_of 3%nat cov)) ->
+     optimal_proper_motion 3 prs (src_estimate_corr_v3 ROps (svd_of 3%nat) src tgt corr)) /\
+  ((let cov := cross_cov ROps 2 prs (mean_of ROps 3 (map fst prs)) (mean_of ROps 3 (map snd prs)) in svd_contract 2 cov (svd_of 2%nat cov)) ->
+     optimal_proper_motion 2 prs (src_estimate_corr_h2 ROps (svd_of 2%nat) src tgt corr)) /\
+  ((let cov := cross_cov ROps 3 prs (mean_of ROps 4 (map fst prs)) (mean_of ROps 4 (map snd prs)) in svd_contract 3 cov (svd_of 3%nat cov)) ->
+     optimal_proper_motion 3 prs (src_estimate_corr_h3 ROps (svd_of 3%nat) src tgt corr)).
+Proof.
+  exact (fun svd src tgt corr prs E Hne =>
+    conj (src_corr_optimal svd 2 2 _ (or_introl eq_refl) (le_n 2) (tie_estimate_corr_v2 ROps KabschLits_R svd) src tgt corr prs E Hne)
+   (conj (src_corr_optimal svd 3 3 _ (or_intror eq_refl) (le_n 3) (tie_estimate_corr_v3 ROps KabschLits_R svd) src tgt corr prs E Hne)
+   (conj (src_corr_optimal svd 2 3 _ (or_introl eq_refl) (le_S 2 2 (le_n 2)) (tie_estimate_corr_h2 ROps KabschLits_R svd) src tgt corr prs E Hne)
+         (src_corr_optimal svd 3 4 _ (or_intror eq_refl) (le_S 3 3 (le_n 3)) (tie_estimate_corr_h3 ROps KabschLits_R svd) src tgt corr prs E Hne)))).
+Qed.
+
+(* the same for the term generated from estimate_(sourcePoints, targetPoints) on two sets of equal size *)
+Theorem C04_source_estimate_aligned_is_optimal_proper_rotation :
+  forall svd_of (src tgt : list (list R)), length src = length tgt -> src <> [] ->
+  let prs := combine src tgt in
+  ((let cov := cross_cov ROps 2 prs (mean_of ROps 2 (map fst prs)) (mean_of ROps 2 (map snd prs)) in svd_contract 2 cov (svd_of 2%nat cov)) ->
+     optimal_proper_motion 2 prs (src_estimate_aligned_v2 ROps (svd_of 2%nat) src tgt)) /\
+  ((let cov := cross_cov ROps 3 prs (mean_of ROps 3 (map fst prs)) (mean_of ROps 3 (map snd prs)) in svd_contract 3 cov (svd_of 3%nat cov)) ->
+     optimal_proper_motion 3 prs (src_estimate_aligned_v3 ROps (svd_of 3%nat) src tgt)) /\
+  ((let cov := cross_cov ROps 2 prs (mean_of ROps 3 (map fst prs)) (mean_of ROps 3 (map snd prs)) in svd_contract 2 cov (svd_of 2%nat cov)) ->
+     optimal_proper_motion 2 prs (src_estimate_aligned_h2 ROps (svd_of 2%nat) src tgt)) /\
+  ((let cov := cross_cov ROps 3 prs (mean_of ROps 4 (map fst prs)) (mean_of ROps 4 (map snd prs)) in svd_contract 3 cov (svd_of 3%nat cov)) ->
+     optimal_proper_motion 3 prs (src_estimate_aligned_h3 ROps (svd_of 3%nat) src tgt)).
+Proof.
+  exact (fun svd src tgt Hl Hne =>
+    conj (src_aligned_optimal svd 2 2 _ (or_introl eq_refl) (le_n 2) (tie_estimate_aligned_v2 ROps KabschLits_R svd) src tgt Hl Hne)
+   (conj (src_aligned_optimal svd 3 3 _ (or_intror eq_refl) (le_n 3) (tie_estimate_aligned_v3 ROps KabschLits_R svd) src tgt Hl Hne)
+   (conj (src_aligned_optimal svd 2 3 _ (or_introl eq_refl) (le_S 2 2 (le_n 2)) (tie_estimate_aligned_h2 ROps KabschLits_R svd) src tgt Hl Hne)
+         (src_aligned_optimal svd 3 4 _ (or_intror eq_refl) (le_S 3 3 (le_n 3)) (tie_estimate_aligned_h3 ROps KabschLits_R svd) src tgt Hl Hne)))).
+Qed.
+
+(* and for the term generated from find(PreconditionedPointSet, PreconditionedPointSet, correspondences), both sets
+   preconditioned with the same scale c <> 0 (stored points = [precondition c pts], entry (0,0) of the target's matrix =
+   [precond_matrix00 c]): the returned matrix is a proper rigid motion, least-squares optimal on the ORIGINAL pairs *)
+Theorem C04_source_find_preconditioned_is_optimal_for_the_original_pairs :
+  forall svd_of c (src tgt : list (list R)) corr prs Ms Mt, pairs_of_corr src tgt corr = Some prs -> prs <> [] -> c <> 0 ->
+  mcomp ROps Mt 0 0 = precond_matrix00 ROps c ->
+  let sp := scale_pairs c prs in
+  ((let cov := cross_cov ROps 2 sp (mean_of ROps 2 (map fst sp)) (mean_of ROps 2 (map snd sp)) in svd_contract 2 cov (svd_of 2%nat cov)) ->
+     optimal_proper_motion 2 prs (src_find_pre_corr_v2 ROps (svd_of 2%nat) (precondition ROps c src) Ms (precondition ROps c tgt) Mt corr)) /\
+  ((let cov := cross_cov ROps 3 sp (mean_of ROps 3 (map fst sp)) (mean_of ROps 3 (map snd sp)) in svd_contract 3 cov (svd_of 3%nat cov)) ->
+     optimal_proper_motion 3 prs (src_find_pre_corr_v3 ROps (svd_of 3%nat) (precondition ROps c src) Ms (precondition ROps c tgt) Mt corr)) /\
+  ((let cov := cross_cov ROps 2 sp (mean_of ROps 3 (map fst sp)) (mean_of ROps 3 (map snd sp)) in svd_contract 2 cov (svd_of 2%nat cov)) ->
+     optimal_proper_motion 2 prs (src_find_pre_corr_h2 ROps (svd_of 2%nat) (precondition ROps c src) Ms (precondition ROps c tgt) Mt corr)) /\
+  ((let cov := cross_cov ROps 3 sp (mean_of ROps 4 (map fst sp)) (mean_of ROps 4 (map snd sp)) in svd_contract 3 cov (svd_of 3%nat cov)) ->
+     optimal_proper_motion 3 prs (src_find_pre_corr_h3 ROps (svd_of 3%nat) (precondition ROps c src) Ms (precondition ROps c tgt) Mt corr)).
+Proof.
+  exact (fun svd c src tgt corr prs Ms Mt E Hne Hc0 Hm =>
+    conj (src_pre_corr_optimal svd 2 2 _ (or_introl eq_refl) (le_n 2) (tie_find_pre_corr_v2 ROps KabschLits_R svd) c src tgt corr prs Ms Mt E Hne Hc0 Hm)
+   (conj (src_pre_corr_optimal svd 3 3 _ (or_intror eq_refl) (le_n 3) (tie_find_pre_corr_v3 ROps KabschLits_R svd) c src tgt corr prs Ms Mt E Hne Hc0 Hm)
+   (conj (src_pre_corr_optimal svd 2 3 _ (or_introl eq_refl) (le_S 2 2 (le_n 2)) (tie_find_pre_corr_h2 ROps KabschLits_R svd) c src tgt corr prs Ms Mt E Hne Hc0 Hm)
+         (src_pre_corr_optimal svd 3 4 _ (or_intror eq_refl) (le_S 3 3 (le_n 3)) (tie_find_pre_corr_h3 ROps KabschLits_R svd) c src tgt corr prs Ms Mt E Hne Hc0 Hm)))).
+Qed.
+
+(* one Print Assumptions for the source-tie theorems together (the three dictionary-generic ties are closed under the global
+   context; the end-to-end corollaries use the axioms of the real numbers, like the theorems they restate) *)
+Definition C04_source_tie_statements :=
+  (C04_source_tie_literal_laws_hold_over_the_reals, C04_source_tie_estimate, C04_source_tie_find_plain,
+   C04_source_tie_find_preconditioned, C04_optimal_proper_motion_means, C04_source_estimate_corr_is_optimal_proper_rotation,
+   C04_source_estimate_aligned_is_optimal_proper_rotation, C04_source_find_preconditioned_is_optimal_for_the_original_pairs).
+Print Assumptions C04_source_tie_statements.
+Definition C04_source_tie_generic_statements := (C04_source_tie_estimate, C04_source_tie_find_plain, C04_source_tie_find_preconditioned).
+Print Assumptions C04_source_tie_generic_statements.
+
+(* ---- non-vacuity of the source-tie theorems: the unit square, listed by the correspondences (0,0) .. (3,3): indices in range,
+   the listed pairs are sq_pairs, the model is defined, and the SVD contract holds for the cross covariance (sq_contract);
+   with the scale 2 on both sets the contract holds for the scaled pairs (sq2_contract) ---- *)
+Example C04_source_tie_hypotheses_satisfiable :
+  pairs_of_corr (map fst sq_pairs) (map snd sq_pairs) [(0, 0); (1, 1); (2, 2); (3, 3)]%nat = Some sq_pairs /\ sq_pairs <> [] /\
+  (exists H, estimate_corr ROps sq_svd true 3 3 (map fst sq_pairs) (map snd sq_pairs) [(0, 0); (1, 1); (2, 2); (3, 3)]%nat = Some H) /\
+  (exists H, estimate_aligned ROps sq_svd true 3 3 (map fst sq_pairs) (map snd sq_pairs) = Some H) /\
+  (let cov := cross_cov ROps 3 sq_pairs (mean_of ROps 3 (map fst sq_pairs)) (mean_of ROps 3 (map snd sq_pairs)) in
+   svd_contract 3 cov (sq_svd 3%nat cov)) /\
+  (let sp := scale_pairs 2 sq_pairs in
+   let cov := cross_cov ROps 3 sp (mean_of ROps 3 (map fst sp)) (mean_of ROps 3 (map snd sp)) in svd_contract 3 cov (sq2_svd 3%nat cov)) /\
+  mcomp ROps [[precond_matrix00 ROps 2; 0; 0; 0]; [0; precond_matrix00 ROps 2; 0; 0]; [0; 0; precond_matrix00 ROps 2; 0]; [0; 0; 0; 1]] 0 0
+    = precond_matrix00 ROps 2.
+Proof.
+  split; [reflexivity|]. split; [discriminate|]. split; [eexists; reflexivity|]. split; [eexists; reflexivity|].
+  split; [exact sq_contract|]. split; [exact sq2_contract|reflexivity].
+Qed.
